@@ -152,13 +152,17 @@ theorem lv_beMonitor (L : Leaves K) (t : Tx) (c : ConnId) (rules : List MatchRul
     exact L.trans _ _ _ h1 (L.trans _ _ _ h2 h3)
 
 theorem lv_runMethod (L : Leaves K) (t : Tx) (c : ConnId) (m : Msg) (w : Method)
-    (hact : t.bus.isActive c = true ∨ w = .hello) : K t.bus (runMethod t c m w).1.bus := by
-  have ha : w ≠ .hello → t.bus.isActive c = true := fun h => hact.resolve_right h
+    (hact : t.bus.isActive c = true ∨ w = .hello ∨ w = .opaqueM) : K t.bus (runMethod t c m w).1.bus := by
+  have ha : w ≠ .hello → w ≠ .opaqueM → t.bus.isActive c = true := fun h1 h2 => by
+    rcases hact with h | h | h
+    · exact h
+    · exact absurd h h1
+    · exact absurd h h2
   cases w with
   | hello => exact lv_hello L t c m
   | requestName =>
     simp only [runMethod]
-    have h := L.acquire t c (arg0 m) (arg1Nat m) (ha (by simp))
+    have h := L.acquire t c (arg0 m) (arg1Nat m) (ha (by simp) (by simp))
     rcases hr : Dbus.Model.Bus.acquire t c (arg0 m) (arg1Nat m) with ⟨t1, r⟩
     rw [hr] at h
     cases r with
@@ -196,7 +200,7 @@ theorem lv_runMethod (L : Leaves K) (t : Tx) (c : ConnId) (m : Msg) (w : Method)
       · split
         · exact L.refl _
         · rename_i r _ _
-          exact L.trans _ _ _ (L.addRule t.bus c r (ha (by simp)) (by omega))
+          exact L.trans _ _ _ (L.addRule t.bus c r (ha (by simp) (by simp)) (by omega))
             (lv_reply L ({ t with bus := t.bus.updRules c (· ++ [r]) } : Tx) c m [] [])
       · exact L.refl _
       · exact L.refl _
@@ -270,6 +274,19 @@ theorem findHandler_handler {tbl : List IfaceRow} {canonical : Bool} {iface : Op
 
 theorem methodOf_hello : methodOf BUS_NAME [0x48, 0x65, 0x6c, 0x6c, 0x6f] = .hello := by decide
 
+/-- a method called Hello is the bus's Hello, or - in an interface other than org.freedesktop.DBus - one whose reply is not
+    modelled: nothing that needs the caller to be registered -/
+theorem methodOf_hello_cases (i : Bytes) :
+    methodOf i [0x48, 0x65, 0x6c, 0x6c, 0x6f] = .hello ∨ methodOf i [0x48, 0x65, 0x6c, 0x6c, 0x6f] = .opaqueM := by
+  unfold methodOf
+  by_cases h : (i == BUS_NAME) = true
+  · left; simp only [h, if_true]; rfl
+  · right
+    simp only [h, if_false]
+    have h1 : (([0x48, 0x65, 0x6c, 0x6c, 0x6f] : Bytes) == ([0x50,0x69,0x6e,0x67] : Bytes)) = false := by decide
+    have h2 : (([0x48, 0x65, 0x6c, 0x6c, 0x6f] : Bytes) == ([0x42,0x65,0x63,0x6f,0x6d,0x65,0x4d,0x6f,0x6e,0x69,0x74,0x6f,0x72] : Bytes)) = false := by decide
+    simp only [h1, h2, Bool.and_false, Bool.false_eq_true, if_false]
+
 theorem isActive_setPending (t : Tx) (p : List Pending) (c : ConnId) : (t.setPending p).bus.isActive c = t.bus.isActive c := rfl
 
 theorem lv_driverHandle (L : Leaves K) (tbl : List IfaceRow) (t : Tx) (c : ConnId) (m : Msg)
@@ -293,13 +310,12 @@ theorem lv_driverHandle (L : Leaves K) (tbl : List IfaceRow) (t : Tx) (c : ConnI
             rcases hact with h | h
             · exact Or.inl h
             · right
-              obtain ⟨h1, h2⟩ := findHandler_handler hf
+              obtain ⟨_, h2⟩ := findHandler_handler hf
               unfold isHello at h
               simp only [Bool.and_eq_true, beq_iff_eq] at h
-              have hi : i = BUS_NAME := (h1 BUS_NAME h.1.2).symm
               have hn : row.name = [0x48, 0x65, 0x6c, 0x6c, 0x6f] := by
                 rw [h2, h.2]; rfl
-              rw [hi, hn]; exact methodOf_hello
+              rw [hn]; exact methodOf_hello_cases i
 
 /-- the gate lets a connection that has not said Hello send nothing but Hello -/
 theorem gate_active_or_hello {b : Bus} {c : ConnId} {m : Msg} {p : List Pending}
